@@ -171,7 +171,7 @@ CHECKS = {
         "declared length, and the dictionary is the element-wise decoding of those contents; conversely any message that "
         "tiles and whose contents decode is accepted with that dictionary (Props/C08.lean). Tied to /repo by ~16k "
         "near-valid mutants (prefix digits, re-pointed lengths, zero lengths, bitmap flips incl. bits 1 and 128, "
-        "truncation/extension) against a strict reference decoder. In addition a SOURCE TIE: harness/pytrans.py translates the current Python text of iso8583._pds_to_dict and _icc_to_dict (while loops, fuel-indexed) into Lean (Gen/Src.lean) on every run and lean/Cardutil/SrcTie/Pds.lean proves, for all inputs, that the translation equals the model (and restates the property for the translated code); when the source changes so that this no longer checks, the check runs its thorough generators before answering (the correspondence remains the deciding tie). The framing statements of iso8583._iso8583_to_field (declared length, refusals, slice, message increment; try/except rendered as a catch) are translated as well and lean/Cardutil/SrcTie/Field.lean proves field_frame_eq (= the model's fieldLength and slice) and restates the framing clause for the translated code (C08_source_frame, C08_source_negative_refused). The element loop of iso8583._iso8583_to_dict (bitmap walk, running pointer, final length test) is translated with the element decoder as a parameter, and lean/Cardutil/SrcTie/Loop.lean proves that it returns exactly when the flagged elements, in ascending order, tile the message data from 0 to its length (C08_source_loop_tiles, C08_source_nothing_left_over, C08_source_unconfigured_refused).",
+        "truncation/extension) against a strict reference decoder. In addition a SOURCE TIE: harness/pytrans.py translates the current Python text of iso8583._pds_to_dict and _icc_to_dict (while loops, fuel-indexed) into Lean (Gen/Src.lean) on every run and lean/Cardutil/SrcTie/Pds.lean proves, for all inputs, that the translation equals the model (and restates the property for the translated code); when the source changes so that this no longer checks, the check runs its thorough generators before answering (the correspondence remains the deciding tie). The framing statements of iso8583._iso8583_to_field (declared length, refusals, slice, message increment; try/except rendered as a catch) are translated as well and lean/Cardutil/SrcTie/Field.lean proves field_frame_eq (= the model's fieldLength and slice) and restates the framing clause for the translated code (C08_source_frame, C08_source_negative_refused). The element loop of iso8583._iso8583_to_dict (bitmap walk, running pointer, final length test) is translated with the element decoder as a parameter, and lean/Cardutil/SrcTie/Loop.lean proves that it returns exactly when the flagged elements, in ascending order, tile the message data from 0 to its length (C08_source_loop_tiles, C08_source_nothing_left_over, C08_source_unconfigured_refused); the WHOLE function (header split with struct.unpack, hexadecimal bitmap, MTI check, loop) is translated as well: C08_source_whole, C08_source_short_refused.",
         "Trusted: as C01; PDS / TLV sub-element values cut short by the end of their carrier are accepted by the code and by the model (recorded, not forbidden by the property).",
         "DESIGN.md §8 C08"),
     'C12': (
